@@ -442,14 +442,17 @@ impl Core {
             &mut self.signed_peers_routing_table,
         );
 
-        relevant_routing_table.increment_responders_stats(
-            dht_size_estimate,
-            responders_dht_size_estimate,
-            subnets_count,
-        );
-
         // Only for get queries, not find node.
-        if !matches!(query.request.request_type, RequestTypeSpecific::FindNode(_)) {
+        if matches!(query.request.request_type, RequestTypeSpecific::FindNode(_)) {
+            // Same stats that `decrement_cached_iterative_query_stats` removes.
+            relevant_routing_table.increment_dht_size_estimate(dht_size_estimate);
+        } else {
+            relevant_routing_table.increment_responders_stats(
+                dht_size_estimate,
+                responders_dht_size_estimate,
+                subnets_count,
+            );
+
             debug!(
                 target = ?query.target(),
                 responders_size_estimate = ?relevant_routing_table.responders_based_dht_size_estimate(),
